@@ -2,7 +2,7 @@
    Statements only, about the hand-written parser model (Suit/Interp.v from_cbor / to_obj), for EVERY byte string, every
    recursion budget and every type table (hence for the regenerated one). *)
 Require Import Coq.Strings.String.
-From Verif Require Import Base.Prim Base.Str Cbor.Codec Suit.Py Suit.Ty Suit.Interp Suit.Clean gen.GenTypes.
+From Verif Require Import Base.Prim Base.Str Cbor.Codec Suit.Py Suit.Ty Suit.Interp Suit.Clean Suit.Typed gen.GenTypes.
 Open Scope Z_scope.
 
 (* the exceptions that may escape: the tool's input errors, or the model's own "budget exhausted" / "declined" / "external
@@ -28,6 +28,37 @@ Theorem parse_fails_cleanly env json_dumps : (forall c, cleanR (json_dumps c)) -
   forall fuel root b, cleanR (parse env json_dumps fuel root b).
 Proof. exact (parse_clean env json_dumps). Qed.
 Print Assumptions parse_fails_cleanly.
+
+(* FULL STRENGTH: the model never declines.  The regenerated type table is well formed (every referenced class exists, no
+   bare list, a repeated '*' member only in last position) — a computation on the table regenerated from the code on this
+   run — and for a well-formed table, parsing ANY byte string as ANY class of the table, with any budget, yields a
+   description or raises ValueError / SUITError (or the budget is exhausted / the JSON oracle is asked): every tree the
+   parser builds is well-typed (Suit/Typed.v, wt), and showing a well-typed tree cannot reach an unmodelled state. *)
+Theorem regenerated_table_well_formed : env_wf types = true.
+Proof. vm_compute. reflexivity. Qed.
+Print Assumptions regenerated_table_well_formed.
+
+Theorem strict_errors_are : forall e, strict e = true <-> (e = ValueError \/ e = SUITError \/ e = RecursionLimit \/ exists k a, e = Need k a).
+Proof.
+  intros e. split.
+  - destruct e; cbn; intros H; try discriminate H; eauto 10.
+  - intros [->|[->|[->|(k & a & ->)]]]; reflexivity.
+Qed.
+Print Assumptions strict_errors_are.
+
+Theorem parsed_trees_are_well_typed json_dumps : (forall c, strictR (json_dumps c)) ->
+  forall fuel t b v, wf types t = true -> from_cbor types json_dumps fuel t b = Ok v -> wt types t v.
+Proof. intros Hjd fuel t b v Hwf E. exact (from_cbor_wt types json_dumps fuel t b v regenerated_table_well_formed Hjd Hwf E). Qed.
+Print Assumptions parsed_trees_are_well_typed.
+
+Theorem parse_never_declines json_dumps : (forall c, strictR (json_dumps c)) ->
+  forall fuel root b, bound types root = true -> strictR (parse types json_dumps fuel root b).
+Proof. exact (parse_strict types json_dumps regenerated_table_well_formed). Qed.
+Print Assumptions parse_never_declines.
+
+(* non-vacuity: the classes of the table are bound, e.g. the envelope root *)
+Example envelope_root_bound : bound types (s2b "SuitEnvelopeTagged") = true.
+Proof. vm_compute. reflexivity. Qed.
 
 Theorem length_fields_validated_first b0 rest n :
   1 < b0 / 32 < 6 -> 23 < b0 mod 32 < 28 -> decode_cbor_length (b0 mod 32) rest = Some n -> blen (b0 :: rest) < n ->
